@@ -34,6 +34,17 @@ def module_value(facts, name):
 def field_source(v, facts, item):
     """Normalise a constructor argument of an expansion into ('reg', n) | ('imm', n) | ('off', k) | k (operand index) |
     ('hi', src) | ('lo', src) | ('expr', k) | None."""
+    if v[0] == 'attr' and len(v) == 3:
+        # a field of a module-level record object (CALL_REGISTERS.link)
+        base = v[1]
+        if base[0] == 'name' and len(base) == 2:
+            base = module_value(facts, base[1]) or base
+        if base[0] == 'new' and base[1] in facts.classes:
+            from ..pathwalk import Walker
+            got = Walker(facts).field_of_new(base, v[2])
+            if got is not None:
+                return field_source(got, facts, item)
+        return None
     if v[0] == 'name' and len(v) == 2:
         got = module_value(facts, v[1])
         if got is not None and got != v:
